@@ -128,40 +128,30 @@ def cases(tier, seed):
     for w in WITNESSES:
         yield {"kind": "witness", **w}
     if tier == "thorough":
-        chosen = [(i, i) for i in range(len(tr))]  # (triple, rotation)
-    else:
-        chosen = None
-    # directed sweep: all segments supplied, every segment start as initial offset
-    if chosen is None:
-        for n, (_key, idxs) in enumerate(lay.items()):
-            f, r, m, _ = tr[idxs[(seed * 3 + n) % len(idxs)]]
+        # every triple: the directed sweep (all segments, every segment start as initial offset), then the draws
+        for f, r, m, _ in tr:
             yield {"kind": "starts", "family": f, "revision": r, "memory": m}
-    else:
-        for i, _ in chosen:
-            f, r, m, _ = tr[i]
-            yield {"kind": "starts", "family": f, "revision": r, "memory": m}
-    # random draws
-    if chosen is None:
-        for n, (_key, idxs) in enumerate(lay.items()):
-            for k in range(DRAWS):
-                f, r, m, _ = tr[idxs[(seed * DRAWS + k * 7 + n) % len(idxs)]]
-                yield {"kind": "draw", "family": f, "revision": r, "memory": m, "k": k}
-    else:
-        for i, _ in chosen:
-            f, r, m, _ = tr[i]
+        for f, r, m, _ in tr:
             for k in range(DRAWS):
                 yield {"kind": "draw", "family": f, "revision": r, "memory": m, "k": k}
-    # CLI samples (the CLI parse has no revision option: latest revision only)
-    seen = set()
-    if chosen is None:
-        for n, (_key, idxs) in enumerate(lay.items()):
-            f, r, m, _ = tr[idxs[(seed * 5 + n) % len(idxs)]]
-            yield {"kind": "cli", "family": f, "memory": m, "k": n}
-    else:
+        # CLI samples (the CLI parse has no revision option: latest revision only)
+        seen = set()
         for n, (f, _r, m, _) in enumerate(tr):
             if (f, m) not in seen:
                 seen.add((f, m))
                 yield {"kind": "cli", "family": f, "memory": m, "k": n}
+        return
+    # quick: every distinct layout; the triple that stands for it rotates with the seed and the draw
+    for n, idxs in enumerate(lay.values()):
+        f, r, m, _ = tr[idxs[(seed * 3 + n) % len(idxs)]]
+        yield {"kind": "starts", "family": f, "revision": r, "memory": m}
+    for n, idxs in enumerate(lay.values()):
+        for k in range(DRAWS):
+            f, r, m, _ = tr[idxs[(seed * DRAWS + k * 7 + n) % len(idxs)]]
+            yield {"kind": "draw", "family": f, "revision": r, "memory": m, "k": k}
+    for n, idxs in enumerate(lay.values()):
+        f, _r, m, _ = tr[idxs[(seed * 5 + n) % len(idxs)]]
+        yield {"kind": "cli", "family": f, "memory": m, "k": n + seed}
 
 
 # ------------------------------------------------------------------------------------------
